@@ -7,10 +7,10 @@ VERIF = os.path.dirname(os.path.dirname(os.path.abspath(__file__)))
 SEEDED = os.path.join(VERIF, "seeded")
 
 
-def run_one(sid, tier):
+def run_one(sid, tier, prop=None):
     d = os.path.join(SEEDED, sid)
     meta = json.load(open(os.path.join(d, "meta.json")))
-    prop = meta.get("property", sid.split("-")[0]).upper()
+    prop = prop or meta.get("property", sid.split("-")[0]).upper()
     w = tempfile.mkdtemp(prefix="seedwt-")
     os.rmdir(w)
     subprocess.run(["git", "-C", "/repo", "worktree", "add", "-q", "--detach", w, "main"], check=True)
@@ -42,6 +42,28 @@ def run_one(sid, tier):
         subprocess.run(["git", "-C", "/repo", "worktree", "remove", "--force", w])
 
 
+# which other properties a change may violate, by touched file (a regression written "for" one property
+# often breaks the clause of another one)
+ALT = [("ipfsconn/ipfshttp", ["C16"]), ("allocate.go", ["C03"]), ("allocator/", ["C03"]), ("consensus/raft/log_op.go", ["C01"]),
+       ("consensus/raft/data_helper.go", ["C14"]), ("consensus/raft/", ["C01", "C17"]), ("consensus/crdt/", ["C02", "C07"]),
+       ("state/dsstate", ["C01", "C14", "C08"]), ("config.go", ["C15"]), ("config/", ["C15"]), ("monitor/", ["C09", "C03"]),
+       ("pintracker/", ["C05", "C06", "C18"]), ("api/types.go", ["C08", "C11", "C04"]), ("rpc_api.go", ["C07", "C03"]),
+       ("api/rest", ["C11"]), ("api/ipfsproxy", ["C12"]), ("adder/", ["C13"]), ("cmdutils/", ["C14", "C08"]),
+       ("pstoremgr/", ["C14"]), ("informer/", ["C18", "C09"]), ("cluster.go", ["C04", "C10", "C18", "C09"])]
+
+
+def alternatives(sid, prop):
+    files = re.findall(r'^\+\+\+ b/(\S+)', open(os.path.join(SEEDED, sid, "patch.diff")).read(), re.M)
+    out = []
+    for f in files:
+        for pat, props in ALT:
+            if pat in f:
+                for q in props:
+                    if q != prop and q not in out:
+                        out.append(q)
+    return out[:3]
+
+
 def main():
     args = sys.argv[1:]
     tier = "quick"
@@ -50,6 +72,15 @@ def main():
     ids = args or sorted(x for x in os.listdir(SEEDED) if os.path.isdir(os.path.join(SEEDED, x)) and os.path.exists(os.path.join(SEEDED, x, "patch.diff")))
     for sid in ids:
         r = run_one(sid, tier)
+        if r["outcome"] == "missed":
+            # try the checks of the other properties whose code the change touches
+            for q in alternatives(sid, r["property"]):
+                r2 = run_one(sid, tier, prop=q)
+                r.setdefault("other_checks", {})[q] = r2["outcome"]
+                if r2["outcome"] == "caught":
+                    r["outcome"] = "caught by %s (not by %s)" % (q, r["property"])
+                    r["violation_keys"] = r2.get("violation_keys", [])
+                    break
         json.dump(r, open(os.path.join(SEEDED, sid, "result.json"), "w"), indent=1)
         print(sid, r["outcome"], r.get("violation_keys", [])[:2], flush=True)
     write_md()
